@@ -46,6 +46,7 @@
 
 /* ---- the script: all nondeterminism */
 unsigned char sc_code[NPH][3];
+unsigned char sc_junkph, sc_junkb;     /* one phase (or none: >= NPH) whose reply lines start with a byte that is no digit */
 unsigned char sc_cont[NPH];
 unsigned char sc_text[NPH];
 unsigned char sc_dropph;         /* phase whose reply is cut short; >= NPH: connection stays up */
@@ -99,11 +100,15 @@ void sym_inputs(void)
   SYM_ARR(sc_code[7]);
 #endif
   SYM_ARR(sc_cont); SYM_ARR(sc_text);
+  SYM(sc_junkph); SYM(sc_junkb);
   SYM(sc_dropph); SYM(sc_dropoff); SYM(sc_endkind); SYM(sc_blastfail); SYM(sc_wfail);
 #endif
 }
 
-static unsigned int code_of(int ph) { return 100u * sc_code[ph][0] + 10u * sc_code[ph][1] + sc_code[ph][2]; }
+/* a reply whose first byte is no digit is no acceptance of anything (RFC 5321 4.2: a reply begins with a three-digit code):
+ * the reference treats it as a refusal; whether the client calls that permanent or temporary is not prescribed (JUNK) */
+#define JUNK(ph) ((int) sc_junkph == (ph))
+static unsigned int code_of(int ph) { return JUNK(ph) ? 999u : 100u * sc_code[ph][0] + 10u * sc_code[ph][1] + sc_code[ph][2]; }
 static unsigned int line_len(int ph) { return 6u; }                            /* d d d sep t LF */
 static unsigned int reply_len(int ph) { return line_len(ph) * (1u + sc_cont[ph]); }
 
@@ -113,6 +118,7 @@ static unsigned char reply_byte(int ph, unsigned int k)
   unsigned int line = 0;
   if (k >= line_len(ph)) { k -= line_len(ph); line = 1; }
   if (k >= line_len(ph)) { k -= line_len(ph); line = 2; }
+  if (k == 0 && JUNK(ph)) return sc_junkb;
   if (k < 3) return (unsigned char) ('0' + sc_code[ph][k]);
   if (k == 3) return (line < sc_cont[ph]) ? '-' : ' ';
   if (k == 4) return sc_text[ph];
@@ -260,7 +266,8 @@ static void check_rcpt_reports(void)
   CHECK(nrec >= exp_nrcpt, "C09: one report per answered recipient");
   for (i = 0; i < NR; ++i) {
     if (i >= exp_nrcpt || i >= nrec) break;
-    CHECK(letters[i] == exp_rc[i], "C09: recipient report i (argument order) is r/h/s by the class of its RCPT reply");
+    if (JUNK(PH_RCPT0 + (int) i)) { CHECK(letters[i] == 'h' || letters[i] == 's', "C09: a RCPT reply that does not start with a digit never counts as an accepted recipient"); }
+    else CHECK(letters[i] == exp_rc[i], "C09: recipient report i (argument order) is r/h/s by the class of its RCPT reply");
   }
 }
 
@@ -299,6 +306,7 @@ void vf__exit(int status)
     char m = letters[nrec - 1];
     CHECK(m == 'K' || m == 'Z' || m == 'D', "C09: the last report is a message report");
     if (exp_giveup) { CHECK(m == 'Z' || m == 'D', "C09: no accepted recipient is never success"); }
+    else if (exp_msg == 'D' && (JUNK(PH_MAIL) || JUNK(PH_DATA) || JUNK(PH_DOT))) { CHECK(m == 'Z' || m == 'D', "C09: a reply that does not start with a digit is never taken for an acceptance"); if (answered[PH_DOT] && JUNK(PH_DOT)) WITNESS("junk_reply_after_dot"); }
     else { CHECK(m == exp_msg, "C09: message report K/Z/D by the reply classes of the dialogue"); }
   }
   CHECK(blast_called == exp_blast, "C09: the message is transferred iff a recipient and then DATA were accepted");
@@ -329,6 +337,7 @@ void vmain(void)
     ASSUME(sc_code[i][0] <= 9 && sc_code[i][1] <= 9 && sc_code[i][2] <= 9);
     ASSUME(sc_cont[i] <= 2 && sc_text[i] != '\n');
   }
+  ASSUME(sc_junkph <= NPH && sc_junkb != '\n' && !(sc_junkb >= '0' && sc_junkb <= '9'));
   ASSUME(sc_endkind == 0 || sc_endkind == -1);
   ASSUME(sc_blastfail <= 2 && sc_wfail <= PH_DATA);
   if (sc_dropph < NPH) { ASSUME(sc_dropoff < reply_len(sc_dropph)); }
